@@ -14,6 +14,7 @@ from bitstring import Array, Bits
 from rv import util
 from rv.util import B, CLASSES, call, exc_matches, mk, rb
 
+AMBIENT = ['bytealigned', 'mxfp_overflow']      # options this property does not depend on: a quarter of the cases run with them switched
 PROP = 'C17'
 SHARDS = {'quick': 4, 'thorough': 16}
 RULE = ("enumerated: every length 8*b+r (b = L//8 for every L of the boundary length pool, r = 0..7) x "
